@@ -555,6 +555,10 @@ impl<'a> Http2Parser<'a> {
         let stream_frames: Vec<&Http2Frame> =
             frames.iter().filter(|f| f.stream_id == stream_id).collect();
 
+        // The HPACK dynamic table belongs to one connection: every parse starts at the
+        // beginning of a connection's byte stream, so it must not inherit earlier state.
+        *self.hpack_decoder.borrow_mut() = Decoder::new();
+
         for frame in stream_frames {
             match frame.frame_type {
                 Http2FrameType::Headers | Http2FrameType::Continuation => {
